@@ -170,7 +170,10 @@ Seeks(a, b, t) == SeeksL(loc[a], a, b, t)
 \* close parents and uncles that are not known to hold the sought role
 DiscoverCloses(a, b) ==
   IF IsRoot(role[a]) THEN loc[a].ct[b] = "friend" /\ ~IsRoot(view[a][b]) /\ ~IsSeed(view[a][b])
-  ELSE loc[a].ct[b] \in {"parent", "uncle"} /\ Sought(a) \notin view[a][b]
+  ELSE \/ loc[a].ct[b] = "parent" /\ Sought(a) \notin view[a][b]
+       \* uncles are looked at only in a round in which the parent slots are (still) full
+       \/ /\ loc[a].ct[b] = "uncle" /\ Sought(a) \notin view[a][b]
+          /\ Cardinality({x \in Peers(a) : x \notin closed[a] /\ loc[a].ct[x] = "parent" /\ Sought(a) \in view[a][x]}) >= LimParent
 \* what one discover tick of node a would do in the current state (a request also needs the peer to be
 \* neither in transit nor rejected: transitPeer)
 \* (a node that is not root first turns its friends into orphans -- request none -- and then looks for
